@@ -176,6 +176,18 @@ def run(ctx):
         kinds |= {classify_origin(o) for o in origins(ref, e['args'][0])}
     ctx.check('C18.O1', kinds == {'depfile', 'rspfile'}, ref.name, 'RemoveEdgeFiles:kinds', ref.loc,
               'RemoveEdgeFiles removes the depfile and the rspfile (%s)' % sorted(kinds))
+    for e in ref.calls('Cleaner::Remove'):
+        a = strip(e['args'][0])
+        v = a.get('n') if isinstance(a, dict) and a.get('k') == 'var' else None
+        def empty_edge(b, i, s2, v=v):
+            return not any(pol is True and v is not None and mentions_var(atom, v) and
+                           (mentions_call(atom, 'std::basic_string<char>::empty') or 'empty' in k)
+                           for k, pol, atom in ref.edge_facts(b, i))
+        r = ref.find_path(None, lambda x: x['k'] in ('exit', 'ret'), from_succ=ref.entry, is_blocker=lambda x: x is e,
+                          edge_ok=empty_edge)
+        ctx.check('C18.O1', r is None, ref.name, 'RemoveEdgeFiles:skipped:%s' % v, ref.where(e),
+                  'Remove(%s) is skipped only when the edge has no such file (%s.empty())' % (v, v),
+                  witness=None if r is None else {'blocks': r[0]})
     for name in PUBLIC:
         f = prog.fn(name)
         lds = list(f.calls('Cleaner::LoadDyndeps'))
